@@ -16,6 +16,8 @@ def run(pid, tier, exe, build_engine):
             return crashed(pid, tier, exe, rc)
         print(f"MACHINERY-FAILURE: engine exited with {rc}")
         return 2
+    if pid in ("C02", "C17"):
+        rc = max(rc, corpus_extension(pid, tier))
     if pid == "C17":
         # second configuration: docs feature on (separate target directory)
         exe2 = build_engine(("docs",))
@@ -65,3 +67,37 @@ def crashed(pid, tier, exe, rc):
     print(f"  violation class registration-crash: registering {culprits[0][1]} alone kills the process ({len(culprits)} member(s))")
     print(f"VIOLATION property={pid} replay={path}")
     return 1
+
+
+def corpus_extension(pid, tier):
+    """C02 / C17 also hold over the generated program corpora (every definition of the derive grammar and every
+    type expression of the built-in grammar, each registered alone): image check / PhantomData-member scan."""
+    import hashlib
+    import builting, progs
+    fails, counts = [], {}
+    for corpus in (progs.derive_corpus(tier, False), builting.corpus(tier)):
+        corpus.build_excluding()
+        f, c = corpus.run()
+        meta = {d[0]: d[3] for d in corpus.defs}
+        for x in f:
+            if x.get('p') in (pid, 'C01' if pid == 'C02' else pid):
+                m = meta.get(x.get('def', '').split(':')[0], {})
+                x['what'] = m.get('def_src') or m.get('src')
+                fails.append(x)
+        counts[corpus.name] = c.get(pid, 0)
+    main = os.path.join(VERIF, "evidence", pid + ".json")
+    ev = json.load(open(main))
+    ev["coverage"]["program_corpora"] = {"types_registered_alone_and_checked": counts, "failures": len(fails)}
+    classes = {}
+    for x in fails:
+        classes.setdefault(x['key'], []).append(x)
+    for key, xs in sorted(classes.items())[:8]:
+        body = {"property": pid, "key": "corpus:" + key, "message": xs[0]['msg'], "case": {"kind": "corpus-definition", "defid": xs[0].get('def'), "source": xs[0].get('what')}, "cases_in_class": len(xs)}
+        path = os.path.join(VERIF, "replay", "%s-%s.json" % (pid, hashlib.sha1(json.dumps(body, sort_keys=True).encode()).hexdigest()[:16]))
+        os.makedirs(os.path.dirname(path), exist_ok=True)
+        json.dump(body, open(path, "w"), indent=1, ensure_ascii=False)
+        print("  violation class corpus:%s: %s (%d case(s))" % (key, xs[0]['msg'][:500], len(xs)))
+        print("VIOLATION property=%s replay=%s" % (pid, path))
+    ev["violations"] = ev.get("violations", 0) + len(fails)
+    json.dump(ev, open(main, "w"), indent=1, ensure_ascii=False)
+    return 1 if fails else 0
